@@ -422,72 +422,14 @@ func init() {
 				fmt.Fprintf(inner, "-\traw-profile failures by class (not findings) %v\tok\n", tally)
 			}()
 		}
-		lcs := []*c02LangCase{}
-		byID := map[string]*c02IRCase{}
-		for _, c := range cases {
-			lcs = append(lcs, &c.c02LangCase)
-			byID[c.ID] = c
+		describe := func(ic *c02IRCase, lang, class string) string {
+			return fmt.Sprintf("lang=%s class=%s trig=%s format=ir %s src=ir:%s", lang, class, ic.Shape, ic.Combo.String(), virSchemas(ic.IR))
 		}
-		describe := func(c *c02LangCase, lang, class string) string {
-			ic := byID[c.ID]
-			return fmt.Sprintf("lang=%s class=%s trig=%s format=ir %s src=ir:%s", lang, class, ic.Shape, c.Combo.String(), virSchemas(ic.IR))
-		}
-		for _, c := range cases {
-			if c.GenErr != "" {
-				continue
-			}
-			// declaration fragments vs. the Lean model, one row per package
-			if c.PostErr == "" && len(c.Frags) > 0 {
-				fmt.Fprintf(out, "defschemas %s %s\tok\tok\n", c.ID, virSchemas(c.PostGo))
-				for _, pkg := range c.Pkgs {
-					frag := c.Frags[pkg]
-					if frag == nil {
-						continue
-					}
-					verdict := "welltyped"
-					if d := godiags["frag/"+pkg]; strings.HasPrefix(d, "depends on ") {
-						// the fragment of an imported package does not compile: the compiler never looked at this one
-						fmt.Fprintf(out, "-\tskip %s/%s fragment-not-compiled %s\tok\n", c.ID, pkg, labOneLine(labFirstLine(d)))
-						continue
-					} else if strings.Contains(d, "import cycle not allowed") {
-						// imports are outside the model: mutually referring packages cannot be compiled at all
-						fmt.Fprintf(out, "-\tskip %s/%s fragment-in-import-cycle\tok\n", c.ID, pkg)
-						continue
-					} else if d != "" {
-						verdict = "illtyped:" + c02FirstDiag(d)
-					}
-					fmt.Fprintf(out, "godecl %s %s %s\t%s %s\tok\n", c.ID, pkg, goFlagBits(c.Combo.Go), verdict, frag.Stripped)
-				}
-			}
-			// whole Go packages
-			bad := false
-			for _, pkg := range c.Pkgs {
-				if d := godiags[pkg]; strings.HasPrefix(d, "depends on ") {
-					bad = true
-					counts["go-dependency-broken"]++
-					fmt.Fprintf(out, "-\tgo %s/%s not-compiled %s\tok\n", c.ID, pkg, labOneLine(labFirstLine(d)))
-					break
-				} else if d != "" {
-					bad = true
-					counts["go-fail"]++
-					fmt.Fprintf(out, "-\tgo %s/%s compile-error %s\tFAIL go-compile %s diag=%s\n", c.ID, pkg, labOneLine(labFirstLine(d)),
-						describe(&c.c02LangCase, "go", c02FirstDiag(d)), labOneLine(labFirstLine(d)))
-					break
-				}
-			}
-			if !bad {
-				counts["go-ok"]++
-				fmt.Fprintf(out, "-\tgo %s ok\tok\n", c.ID)
-			}
-		}
-		if d := godiags["cog"]; d != "" {
-			fmt.Fprintf(out, "-\tgo runtime compile-error %s\tFAIL go-compile lang=go class=%s trig=runtime src=-\n", labOneLine(labFirstLine(d)), c02FirstDiag(d))
-		}
-		lc, err := c02ReportLangs(out, work, lcs, describe)
+		rc, err := c02ReportModule(out, work, cases, godiags, describe)
 		if err != nil {
 			return err
 		}
-		for k, v := range lc {
+		for k, v := range rc {
 			counts[k] += v
 		}
 		fmt.Fprintf(out, "-\tstats cases=%d %v\tok\n", len(cases), counts)
@@ -568,4 +510,77 @@ func c02Tail(s string, n int) string {
 		return s[len(s)-n:]
 	}
 	return s
+}
+
+// c02ReportModule prints the rows of cases that were built in one Go module (c02BuildGoModule): the
+// declaration fragments against the Lean model, every Go package, then Java / Python / placeholders.
+func c02ReportModule(out *bufio.Writer, work string, cases []*c02IRCase, godiags map[string]string,
+	describeCase func(c *c02IRCase, lang, class string) string) (map[string]int, error) {
+	counts := map[string]int{}
+	lcs := []*c02LangCase{}
+	byID := map[string]*c02IRCase{}
+	for _, c := range cases {
+		lcs = append(lcs, &c.c02LangCase)
+		byID[c.ID] = c
+	}
+	describe := func(c *c02LangCase, lang, class string) string { return describeCase(byID[c.ID], lang, class) }
+	for _, c := range cases {
+		if c.GenErr != "" {
+			continue
+		}
+		// declaration fragments vs. the Lean model, one row per package
+		if c.PostErr == "" && len(c.Frags) > 0 {
+			fmt.Fprintf(out, "defschemas %s %s\tok\tok\n", c.ID, virSchemas(c.PostGo))
+			for _, pkg := range c.Pkgs {
+				frag := c.Frags[pkg]
+				if frag == nil {
+					continue
+				}
+				verdict := "welltyped"
+				if d := godiags["frag/"+pkg]; strings.HasPrefix(d, "depends on ") {
+					// the fragment of an imported package does not compile: the compiler never looked at this one
+					fmt.Fprintf(out, "-\tskip %s/%s fragment-not-compiled %s\tok\n", c.ID, pkg, labOneLine(labFirstLine(d)))
+					continue
+				} else if strings.Contains(d, "import cycle not allowed") {
+					// imports are outside the model: mutually referring packages cannot be compiled at all
+					fmt.Fprintf(out, "-\tskip %s/%s fragment-in-import-cycle\tok\n", c.ID, pkg)
+					continue
+				} else if d != "" {
+					verdict = "illtyped:" + c02FirstDiag(d)
+				}
+				fmt.Fprintf(out, "godecl %s %s %s\t%s %s\tok\n", c.ID, pkg, goFlagBits(c.Combo.Go), verdict, frag.Stripped)
+			}
+		}
+		// whole Go packages
+		bad := false
+		for _, pkg := range c.Pkgs {
+			if d := godiags[pkg]; strings.HasPrefix(d, "depends on ") {
+				bad = true
+				counts["go-dependency-broken"]++
+				fmt.Fprintf(out, "-\tgo %s/%s not-compiled %s\tok\n", c.ID, pkg, labOneLine(labFirstLine(d)))
+				break
+			} else if d != "" {
+				bad = true
+				counts["go-fail"]++
+				fmt.Fprintf(out, "-\tgo %s/%s compile-error %s\tFAIL go-compile %s diag=%s\n", c.ID, pkg, labOneLine(labFirstLine(d)),
+					describe(&c.c02LangCase, "go", c02FirstDiag(d)), labOneLine(labFirstLine(d)))
+				break
+			}
+		}
+		if !bad {
+			counts["go-ok"]++
+			fmt.Fprintf(out, "-\tgo %s ok\tok\n", c.ID)
+		}
+	}
+	if d := godiags["cog"]; d != "" {
+		fmt.Fprintf(out, "-\tgo runtime compile-error %s\tFAIL go-compile lang=go class=%s trig=runtime src=-\n", labOneLine(labFirstLine(d)), c02FirstDiag(d))
+	}
+	lc, err := c02ReportLangs(out, work, lcs, describe)
+	if err != nil {
+		return nil, err
+	}
+	for k, v := range lc {
+		counts[k] += v
+	}
+	return counts, nil
 }
